@@ -135,8 +135,16 @@ func buildDDoc(views map[string]string) *sgbucket.DesignDoc {
 	return dd
 }
 
+// collVia returns the collection through handle h (C12 runs open two handles on the bucket).
+func (e *e1) collVia(h, coll int) *rosmar.Collection {
+	if h <= 0 || h >= len(e.w.Colls) || h == 9 {
+		h = 0
+	}
+	return e.w.Colls[h][coll].(*rosmar.Collection)
+}
+
 func (e *e1) doPutDDoc(op *Op) *Violation {
-	c := e.w.Colls[0][op.Coll].(*rosmar.Collection)
+	c := e.collVia(op.Handle, op.Coll)
 	if op.Kind == "DelDDoc" {
 		err := c.DeleteDDoc(op.Key)
 		_, had := e.ddocsOf(op.Coll)[op.Key]
@@ -373,7 +381,7 @@ func sameRows(got, want []vrow, ordered bool) bool {
 }
 
 func (e *e1) doView(op *Op) *Violation {
-	c := e.w.Colls[0][op.Coll].(*rosmar.Collection)
+	c := e.collVia(op.Handle, op.Coll)
 	var params map[string]any
 	_ = json.Unmarshal([]byte(*op.Body), &params)
 	vd, known := e.ddocsOf(op.Coll)[op.Key][op.Path]
@@ -520,7 +528,8 @@ func (e *e1) doQuery(op *Op) *Violation {
 		_ = json.Unmarshal([]byte(*op.Body), &args)
 	}
 	stmt := queryFamily[op.Path]
-	iter, err := c.Query(sgbucket.SQLiteLanguage, stmt, args, sgbucket.RequestPlus, true)
+	adhoc := op.Amt&1 == 0
+	iter, err := c.Query(sgbucket.SQLiteLanguage, stmt, args, sgbucket.RequestPlus, adhoc)
 	if err != nil {
 		return e.violate([]string{"C19"}, "query.error", "step %d: Query(%s) failed: %v", e.step, op.Path, err)
 	}
@@ -528,12 +537,21 @@ func (e *e1) doQuery(op *Op) *Violation {
 	var got []string
 	hold := op.WOpt == 1 && e.p.OnDisk
 	first := true
+	var kept [][]byte // NextBytes() results held on to until the iteration is over
 	for {
 		var row map[string]any
-		if !iter.Next(context.Background(), &row) {
-			break
+		if op.Amt&2 != 0 {
+			b := iter.NextBytes()
+			if b == nil {
+				break
+			}
+			kept = append(kept, b)
+		} else {
+			if !iter.Next(context.Background(), &row) {
+				break
+			}
+			got = append(got, canonKey(row))
 		}
-		got = append(got, canonKey(row))
 		if first && hold {
 			// a write while the (streaming) iterator is open: it must still return its snapshot
 			first = false
@@ -557,6 +575,13 @@ func (e *e1) doQuery(op *Op) *Violation {
 		}
 	}
 	cerr := iter.Close()
+	for _, b := range kept {
+		var row map[string]any
+		if json.Unmarshal(b, &row) != nil {
+			return e.violate([]string{"C19"}, "query.rowbytes", "step %d: a row returned by NextBytes() is no longer valid JSON once the iteration has moved on: %q", e.step, b)
+		}
+		got = append(got, canonKey(row))
+	}
 	synctest.Wait()
 	// drain the live feed index (the held write produced an event)
 	for ci, f := range e.live {
@@ -575,7 +600,13 @@ func (e *e1) doQuery(op *Op) *Violation {
 				return nil
 			}
 		}
-		return e.violate([]string{"C19"}, "query.rows", "step %d: Query(%s %v) on collection %d returned %v; evaluated over the key-value read-back of the collection it is %v", e.step, op.Path, args, op.Coll, got, want)
+		tags := []string{"C19"}
+		for oc := range e.docs {
+			if oc != op.Coll && len(got) > 0 && strings.Join(got, "\n") == strings.Join(e.expectedQuery(oc, op.Path, args), "\n") {
+				tags = append(tags, "C11") // these are another collection's documents
+			}
+		}
+		return e.violate(tags, "query.rows", "step %d: Query(%s %v, adhoc=%v) on collection %d returned %v; evaluated over the key-value read-back of the collection it is %v", e.step, op.Path, args, adhoc, op.Coll, got, want)
 	}
 	if len(want) > 0 {
 		e.res.Stats.NonTrivial = true
